@@ -18,7 +18,7 @@ i=0
 for d in "$HERE"/seeded/*/; do
   k=$(basename "$d"); p=${k%%-*}
   # DIAG_ONLY=<extended regexp>: only the changes whose id matches
-  if [ -n "${DIAG_ONLY:-}" ] && ! echo "$k" | grep -Eq "$DIAG_ONLY"; then continue; fi
+  if [ -n "${DIAG_ONLY:-}" ] && ! echo "$k" | grep -Eq -- "$DIAG_ONLY"; then continue; fi
   i=$((i+1)); [ $((i % NS)) -eq "$SH" ] || continue
   git -C "$W/repo" apply "$d/patch.diff" || { printf '%s\tAPPLY-FAILED\n' "$k" >> "$out"; continue; }
   if build $p; then
